@@ -264,6 +264,20 @@ def extra_histories():
                    "shape": "extra:make_parameter_dynamic"}
 
 
+def copy_histories():
+    """deep copy / pickle round trip of a model with and without a filled cache, then an edit of the copy and queries:
+    the copy answers like a fresh model with ITS content, the original keeps its own, `==` ignores the cache"""
+    muts = [["update_parameter", "k", V(5)], ["remove_reaction", "r1"], ["add_variable", "n1", V(2)],
+            ["scale_parameter", "p", "2"], ["make_variable_static", "y", None], ["remove_surrogate", "s"],
+            ["update_data", "dd", "3"], ["add_parameter", "x", V(1)]]
+    for how in (["fork"], ["fork", "pickle"]):
+        for q in (None, QUERIES[0], QUERIES[2]):
+            for i, m in enumerate(muts):
+                mid = ([q] if q else []) + [how, m, QUERIES[i % len(QUERIES)], ["q", "eq"], how, QUERIES[(i + 1) % 3]]
+                yield {"ops": BASE + mid + BATTERY[-2:], "check_from": len(BASE), "stratum": "copy",
+                       "shape": f"copy:{how[-1]}:{m[0]}"}
+
+
 def triples(rng=None, n=None):
     """build; q; m1; m2; q over the reduced argument set (all of them, or a sample of n)"""
     ms = mut_ops(reduced=True)
@@ -588,7 +602,7 @@ def random_history(rng, length):
     while len(ops) < length:
         r = rng.random()
         if r < 0.03:
-            ops.append(["fork"])
+            ops.append(rng.choice([["fork"], ["fork", "pickle"]]))
         elif r < 0.35:
             ops.append(rng.choice(QUERIES + BATTERY + QUERIES2))
         else:
